@@ -66,13 +66,12 @@ func checkCrossPath(c crossCase) *vt.Fail {
 	}()
 	time.Sleep(30 * time.Millisecond)
 	fb0.Close()
-	select {
-	case err := <-got:
+	if err, ok := vt.Patience(rec, got, 8*time.Second); ok {
 		if err != nil {
 			fa.Close()
 			return vt.Failf("HARNESS-edit", "%v", err)
 		}
-	case <-time.After(8 * time.Second):
+	} else {
 		ex, sh, _ := probe(pb)
 		// (A stays locked and the goroutines stay where they are: nothing more can be done with this process's locks)
 		return vt.Failf("blocked-with-no-holder", "the holder of A asked for B while %d goroutines of the same process were waiting for A; B was released 8s ago and nothing holds it (probes: exclusive %s, shared %s), yet the call has not returned", c.Waiters, okStr(ex), okStr(sh))
@@ -80,9 +79,7 @@ func checkCrossPath(c crossCase) *vt.Fail {
 	fb.Close()
 	fa.Close()
 	for i := 0; i < c.Waiters; i++ {
-		select {
-		case <-waitersDone:
-		case <-time.After(20 * time.Second):
+		if _, ok := vt.Patience(rec, waitersDone, 20*time.Second); !ok {
 			return vt.Failf("blocked-with-no-holder", "A was released but after 20s only %d of its %d waiters have had their turn", i, c.Waiters)
 		}
 	}
@@ -171,12 +168,11 @@ func checkFailedLockWhileHeld(c failedLockCase) *vt.Fail {
 		}
 		got <- err
 	}()
-	select {
-	case err := <-got:
+	if err, ok := vt.Patience(rec, got, 8*time.Second); ok {
 		if err != nil {
 			return vt.Failf("HARNESS-lock", "%v", err)
 		}
-	case <-time.After(8 * time.Second):
+	} else {
 		return vt.Failf("blocked-with-no-holder", "a Mutex was locked, %d further Lock calls on it failed meanwhile, then it was unlocked - a new Lock on it has not returned after 8s", c.Fails)
 	}
 	return nil
